@@ -2642,11 +2642,27 @@ func (m *Machine) detectQueueDuplicates(mutationType MutationType,
 	if m.disposing.Load() {
 		return false
 	}
-	// check if this mutation is already scheduled
-	found, _, _ := m.IsQueued(mutationType, states, true, true, 0, isCheck,
-		PositionAny)
+	m.queueMx.RLock()
+	defer m.queueMx.RUnlock()
 
-	return found
+	// the most recent queued mutation touching these states decides: it's a
+	// duplicate only if that one is the same mutation (without args), and not
+	// when a counter mutation has been scheduled after it
+	called := m.Index(states)
+	for i := len(m.queue) - 1; i >= 0; i-- {
+		mut := m.queue[i]
+		if mut.IsCheck != isCheck || mut.Type == mutationEval {
+			continue
+		}
+		if mut.Type != MutationSet && slicesNone(mut.Called, called) {
+			continue
+		}
+
+		return mut.Type == mutationType && len(mut.Args) == 0 &&
+			len(mut.Called) == len(called) && slicesEvery(mut.Called, called)
+	}
+
+	return false
 }
 
 // Transition returns the current transition, if any.
